@@ -9,6 +9,8 @@ import (
 	sdk "github.com/pokt-network/pocket-core/types"
 	authTypes "github.com/pokt-network/pocket-core/x/auth/types"
 	"verifharness/internal/chain"
+	"verifharness/internal/gen"
+	"verifharness/internal/wirerw"
 )
 
 // Signer produces a signature and the public key placed in the transaction.
@@ -114,104 +116,19 @@ func Build(s TxSpec) []byte {
 var _ = app.Codec
 
 // ---------------------------------------------------------------------------------------------
-// semantics-preserving re-encodings of a length-prefixed ProtoStdTx
+// re-encodings of a length-prefixed ProtoStdTx: the byte-level rewriter of the codec package
+// (harness/internal/wirerw, also used by cmd/c38 -mode c16), so that exactly the classes judged
+// there by the real decoder are delivered to the real application here.
 
-// Reencodings lists the classes produced by Reencode.
-var Reencodings = []string{"unknown-field", "length-prefix-padded", "entropy-varint-padded", "field-tag-padded", "repeated-scalar"}
+// Reencodings lists every rewrite class with what the byte-level half expects of it
+// ("same" content, "changed" content, "reject").
+func Reencodings() []wirerw.Class { return wirerw.Classes() }
 
-func splitPrefix(raw []byte) (body []byte) {
-	_, n := binary.Uvarint(raw)
-	return raw[n:]
-}
-
-func withPrefix(body []byte) []byte {
-	var sz [binary.MaxVarintLen64]byte
-	n := binary.PutUvarint(sz[:], uint64(len(body)))
-	return append(sz[:n:n], body...)
-}
-
-// padVarint re-encodes the minimal varint v into `extra` more bytes (non-minimal, same value).
-func padVarint(v []byte, extra int) []byte {
-	out := append([]byte{}, v...)
-	out[len(out)-1] |= 0x80
-	for i := 0; i < extra-1; i++ {
-		out = append(out, 0x80)
+// Reencode applies the class to raw; nil when the class does not apply to this transaction.
+func Reencode(r *gen.R, raw []byte, class string) []byte {
+	out, _, ok := wirerw.Rewrite(r, class, raw)
+	if !ok || string(out) == string(raw) {
+		return nil
 	}
-	return append(out, 0x00)
-}
-
-// Reencode returns a different byte string that decodes to the same ProtoStdTx, or nil when the
-// class does not apply to this transaction.
-func Reencode(raw []byte, class string) []byte {
-	body := splitPrefix(raw)
-	switch class {
-	case "unknown-field": // append field 15, wire type 0, value 1
-		return withPrefix(append(append([]byte{}, body...), 0x78, 0x01))
-	case "length-prefix-padded":
-		var sz [binary.MaxVarintLen64]byte
-		n := binary.PutUvarint(sz[:], uint64(len(body)))
-		return append(padVarint(sz[:n], 1), body...)
-	case "entropy-varint-padded", "repeated-scalar", "field-tag-padded":
-		// the entropy field (tag 0x28) is the last field written by the generated marshaler
-		i := lastField(body, 5)
-		if i < 0 {
-			return nil
-		}
-		val := body[i+1:]
-		switch class {
-		case "entropy-varint-padded":
-			if len(val) >= 10 {
-				return nil
-			}
-			return withPrefix(append(append([]byte{}, body[:i+1]...), padVarint(val, 1)...))
-		case "field-tag-padded":
-			return withPrefix(append(append(append([]byte{}, body[:i]...), 0xa8, 0x00), val...))
-		default: // an earlier occurrence of the scalar field with another value; the last one wins
-			return withPrefix(append(append(append([]byte{}, body[:i]...), 0x28, 0x07), body[i:]...))
-		}
-	}
-	return nil
-}
-
-// lastField scans the top-level fields of a proto message and returns the offset of the tag byte
-// of the last field with the given number when that field is the final one (varint wire type).
-func lastField(body []byte, num int) int {
-	i, last := 0, -1
-	for i < len(body) {
-		tag, n := binary.Uvarint(body[i:])
-		if n <= 0 {
-			return -1
-		}
-		start := i
-		i += n
-		switch tag & 7 {
-		case 0:
-			_, m := binary.Uvarint(body[i:])
-			if m <= 0 {
-				return -1
-			}
-			i += m
-		case 2:
-			l, m := binary.Uvarint(body[i:])
-			if m <= 0 {
-				return -1
-			}
-			i += m + int(l)
-		case 1:
-			i += 8
-		case 5:
-			i += 4
-		default:
-			return -1
-		}
-		if int(tag>>3) == num && tag&7 == 0 && n == 1 {
-			last = start
-		} else {
-			last = -1
-		}
-	}
-	if i != len(body) {
-		return -1
-	}
-	return last
+	return out
 }
